@@ -1078,7 +1078,20 @@ func (t *treaddir) handle(cs *connState) message {
 		return newErr(err)
 	}
 
-	return &rreaddir{Count: t.Count, Entries: entries}
+	// The reply (header, count, entries) must fit in the negotiated message
+	// size: send fewer whole entries instead.
+	count := t.Count
+	messageSize := atomic.LoadUint32(&cs.messageSize)
+	if messageSize == 0 {
+		messageSize = maximumLength
+	}
+	if overhead := headerLength + (*rreaddir)(nil).FixedSize(); messageSize < overhead {
+		count = 0
+	} else if count > messageSize-overhead {
+		count = messageSize - overhead
+	}
+
+	return &rreaddir{Count: count, Entries: entries}
 }
 
 // handle implements handler.handle.
